@@ -3,9 +3,9 @@
    s is reachable from `init K ext roots` by any sequence of labels (any interleaving, any fault
    choice, cancellation of the caller's context at any point). *)
 From Coq Require Import List Arith Bool Lia.
-From Oras Require Import Model.CopyImpl Proofs.CopyImplBase Proofs.CopyImplInv Proofs.CopyImplInv2 Proofs.CopyImplLive
+From Oras Require Import Model.CopyImpl Model.CopyImplDst Model.CopyAbs Proofs.CopyImplBase Proofs.CopyImplInv Proofs.CopyImplInv2 Proofs.CopyImplLive
   Proofs.CopyImplDeadlock Proofs.CopyImplFault Proofs.CopyImplTerm Proofs.CopyImplSucc Proofs.CopyImplSucc2
-  Proofs.CopyImplOrder Proofs.CopyImplNoFault.
+  Proofs.CopyImplOrder Proofs.CopyImplNoFault Proofs.CopyImplDst Proofs.CopyAbsProto.
 Import ListNotations.
 
 Theorem C04_permits_conserved : forall succ K ext roots s, Reachable succ K ext roots s ->
@@ -145,6 +145,67 @@ Theorem C02_nofault_returns_nil_protocol : forall succ K ext roots,
 Proof. exact nofault_returns_nil. Qed.
 Print Assumptions C02_nofault_returns_nil_protocol.
 
+(* ---- The protocol WITH A DESTINATION (Model/CopyImplDst.v): a state is a protocol state plus the set of
+   nodes the destination holds; dst.Exists answers by that set, a successful copyNode stores its node, a
+   failing one may have stored it (DPushFailStored).  `DReachable succ K ext roots d0 x`: x is reachable from
+   the initial protocol state with destination content d0 by any sequence of labels -- every interleaving
+   of tasks / permits / done channels / cancel-cause contexts, every fault and cancellation choice.
+   This is the property C02 itself at the granularity of the protocol. ---- *)
+
+(* the destination is link-closed at every reachable state: successful, failed, cancelled, unfinished *)
+Theorem C02_closed_always_protocol : forall succ K ext roots d0,
+  (forall n m, In m (succ n) -> m < n) ->
+  forall x, dclosed succ d0 -> DReachable succ K ext roots d0 x -> dclosed succ (dd x).
+Proof. exact dclosed_always. Qed.
+Print Assumptions C02_closed_always_protocol.
+
+(* no push step -- successful, failing, or failing after having stored the content -- is enabled before
+   every successor of its node is in the destination *)
+Theorem C02_push_after_successors_protocol : forall succ K ext roots d0,
+  (forall n m, In m (succ n) -> m < n) ->
+  forall x dl x' t, DReachable succ K ext roots d0 x -> dstep succ x dl = Some x' ->
+  (exists ok, dl = DL (LPush t ok)) \/ dl = DPushFailStored t ->
+  forall m, In m (succ (t_node (tasks (ds x) t))) -> In m (dd x).
+Proof. exact dpush_after_successors. Qed.
+Print Assumptions C02_push_after_successors_protocol.
+
+(* success: everything reachable from every root is in the destination *)
+Theorem C02_success_complete_protocol : forall succ K ext roots d0,
+  (forall n m, In m (succ n) -> m < n) ->
+  forall x, dclosed succ d0 -> DReachable succ K ext roots d0 x -> result (ds x) = Some false ->
+  forall r n, In r roots -> dreach succ r n -> In n (dd x).
+Proof. exact dsuccess_complete. Qed.
+Print Assumptions C02_success_complete_protocol.
+
+(* retry: after ANY reachable state of a first call (failed, cancelled, abandoned), a second call -- any K,
+   CopyGraph or ExtendedCopyGraph, any roots -- in which nothing fails and which has ended (it does end:
+   C02_no_deadlock + C02_terminates) returned nil, left the destination link-closed, and the destination holds
+   everything reachable from its roots.  All three clauses of "re-running it without faults completes the
+   graph" in one statement about the operational model. *)
+Theorem C02_rerun_completes_protocol : forall succ K1 ext1 roots1 K2 ext2 roots2 d0,
+  (forall n m, In m (succ n) -> m < n) -> dclosed succ d0 ->
+  forall x1, DReachable succ K1 ext1 roots1 d0 x1 ->
+  forall ls x2, drun succ (dinit K2 ext2 roots2 (dd x1)) ls = Some x2 ->
+  existsb is_fault (map dlab ls) = false -> is_final (ds x2) = true ->
+  result (ds x2) = Some false /\
+  dclosed succ (dd x2) /\
+  forall r n, In r roots2 -> dreach succ r n -> In n (dd x2).
+Proof. exact drerun_completes. Qed.
+Print Assumptions C02_rerun_completes_protocol.
+
+(* Refinement to the abstract specification Model/CopyAbs.v (shared with the spec-level part): every step of the
+   protocol system with a destination taken before the top-level call has returned is an abstract step -- a
+   push (successful, or failing after it stored) is a store whose guard "all successors held" holds, the return
+   of the top-level syncutil.Go is the abstract return (nil only when the closure of the roots is held), every
+   other protocol step is a stutter. *)
+Theorem C02_protocol_refines_abstract : forall succ K ext roots d0,
+  (forall n m, In m (succ n) -> m < n) ->
+  forall x dl x', dclosed succ d0 -> DReachable succ K ext roots d0 x ->
+  result (ds x) = None -> dstep succ x dl = Some x' ->
+  exists l, astep succ (proot roots) pheld (pabs x) l (pabs x').
+Proof. exact dstep_refines. Qed.
+Print Assumptions C02_protocol_refines_abstract.
+
 (* ---- the hypotheses are satisfiable: a concrete DAG (4 -> 3,2 ; 3 -> 1,2 ; 2 -> 0,1), complete runs *)
 Definition ex_succ (n : nat) : list nat :=
   match n with 4 => [3; 2] | 3 => [1; 2] | 2 => [0; 1] | _ => [] end.
@@ -175,3 +236,19 @@ Proof. vm_compute. repeat split; reflexivity. Qed.
 (* a reachable non-final state (the hypothesis of C02_no_deadlock) *)
 Example ex_nonfinal : Reachable ex_succ 1 false [4] (init 1 false [4]) /\ is_final (init 1 false [4]) = false.
 Proof. split. apply R_init. reflexivity. Qed.
+
+(* with the destination: K = 2, CopyGraph from root 4 into a destination that already holds the closed set
+   {0, 1}; the first enabled push fails; the call returns an error and the destination is closed; a fault-free
+   second run (K = 1) from what is left returns nil and holds all five nodes *)
+Definition is_push_fail (l : label) : bool := match l with LPush _ false => true | _ => false end.
+Example ex_run_dst :
+  let r1 := dsched ex_succ is_push_fail 120 (dinit 2 false [4] [0; 1]) [] in
+  let x1 := fst r1 in
+  existsb is_fault (map dlab (snd r1)) = true /\
+  is_final (ds x1) = true /\ result (ds x1) = Some true /\ dclosedb ex_succ (dd x1) = true /\
+  let r2 := dsched ex_succ (fun _ => false) 120 (dinit 1 false [4] (dd x1)) [] in
+  let x2 := fst r2 in
+  drun ex_succ (dinit 1 false [4] (dd x1)) (snd r2) = Some x2 /\
+  existsb is_fault (map dlab (snd r2)) = false /\ is_final (ds x2) = true /\
+  result (ds x2) = Some false /\ forallb (fun n => dmem n (dd x2)) [0; 1; 2; 3; 4] = true.
+Proof. vm_compute. repeat split; reflexivity. Qed.
